@@ -9,6 +9,7 @@ Every random decision goes through the Choices object; 0 is always the simplest 
 SLOT_NAMES = ["a", "b", "dflt"]
 MEDIA_JS = ["shared.js", "a.js", "b.js"]
 MEDIA_CSS = ["shared.css", "x.css", "y.css"]
+POOL = ["va", "vb", "vc"]
 PROVIDE_KWARGS = ["pva", "pvb", "pvc"]
 ELEM_TAGS = ["div", "span", "article", "section"]
 # class-name pool; entries beyond the first few stress C04 (names outside [A-Za-z0-9_], prefixes of each other)
@@ -77,6 +78,7 @@ class Gen:
     def program(self):
         ch, P = self.ch, self.P
         mode = ["django", "isolated"][ch.draw(2, "mode")]
+        self.mode = mode
         negative = ch.chance(1, P["neg_den"], "negative")
         for f in FEATURES:
             if f == "negative":
@@ -96,6 +98,10 @@ class Gen:
         page_scope = {"str": ["pa", "pb"], "list": ["pl"], "names": ["pn"], "bool": ["pt", "pf"], "aliases": []}
         ctx = {"pa": "PA", "pb": "PB", "pl": [f"e{k}" for k in range(ch.draw(4, "len_pl"))],
                "pn": ["a", "b"][: 1 + ch.draw(2, "len_pn")], "pt": True, "pf": False}
+        if P.get("collide"):
+            for nm in POOL:
+                if ch.chance(1, 2, "page_pool"):
+                    ctx[nm] = "P_" + nm
         self.local_budget = share + 2
         py_entry = bool(P.get("py_entry")) and ch.chance(1, P["py_entry"], "py_entry")
         if py_entry:
@@ -169,6 +175,8 @@ class Gen:
                     cd["injects"].append([k, has_default])
         if self.P.get("assets"):
             self.assets(cd, i)
+        if self.P.get("collide"):
+            cd["extra_data"] = {nm: "D%s_%s" % (cd["label"], nm) for nm in POOL if ch.chance(1, 3, "data_pool")}
         self.comps[i] = cd  # visible to slot()
         scope = {"str": [f"{name}_s"], "list": [f"{name}_l"], "names": [f"{name}_n"],
                  "bool": [f"{name}_t", f"{name}_f"], "aliases": []}
@@ -224,6 +232,8 @@ class Gen:
             kinds.append(("var", 4))
         if self.on("provide"):
             kinds.append(("pvar", 1))
+        if P.get("collide"):
+            kinds.append(("cvar", 6))
         if P["elems"] and not deep:
             kinds.append(("elem", 6))
         if not deep:
@@ -255,6 +265,8 @@ class Gen:
             if self.on("faults") and ch.chance(1, 6, "varf"):
                 return ["varf", name, self.site()]
             return ["var", name]
+        if k == "cvar":
+            return ["var", ch.choice(POOL, "cvar")]
         if k == "pvar":
             return ["var", ch.choice(PROVIDE_KWARGS + self.provide_keys, "pvar")]
         if k == "elem":
@@ -268,11 +280,11 @@ class Gen:
             return ["if", cond, then, els]
         if k == "for":
             lst = ch.choice(scope["list"], "forlist")
-            x = self.newvar("x")
+            x = ch.choice(POOL, "loopvar_pool") if (P.get("collide") and ch.chance(1, 2, "loopvar_collide")) else self.newvar("x")
             sc = dict(scope, str=scope["str"] + [x])
             return ["for", x, lst, self.nodes(sc, owner, depth + 1, in_fill=in_fill, in_slot_default=in_slot_default)]
         if k == "with":
-            w = self.newvar("w")
+            w = ch.choice(POOL, "with_pool") if (P.get("collide") and ch.chance(1, 2, "with_collide")) else self.newvar("w")
             e = self.expr(scope, "withexpr")
             sc = dict(scope, str=scope["str"] + [w])
             return ["with", w, e, self.nodes(sc, owner, depth + 1, in_fill=in_fill, in_slot_default=in_slot_default)]
@@ -413,13 +425,21 @@ class Gen:
             sc2 = dict(sc, str=sc["str"] + [x])
             body = self.nodes(sc2, owner, depth + 1, in_fill=True)
             return ["for", x, lst, [["fill", ["var", x], data_alias, default_alias, body]]]
+        if wrap == 0 and self.P.get("collide") and getattr(self, "mode", None) == "django" and ch.chance(1, 3, "fill_with"):
+            # {% with %} between the component tag and the fill (django mode only: in isolated mode statement, docs and
+            # code disagree among themselves about this shape, so it is not generated there)
+            wname = ch.choice(POOL, "fill_with_name")
+            e = self.expr(scope, "fill_with_expr")
+            sc4 = dict(sc, str=sc["str"] + [wname])
+            body = self.nodes(sc4, owner, depth + 1, in_fill=True)
+            return ["with", wname, e, [["fill", ["lit", name], data_alias, default_alias, body]]]
         body = self.nodes(sc, owner, depth + 1, in_fill=True) if ch.chance(5, 6, "fillbody") else []
         f = ["fill", ["lit", name], data_alias, default_alias, body]
         if wrap == 1:
             cond = ch.choice(scope["bool"], "fillcond")
             return ["if", cond, [f], []]
         if wrap == 2 and scope["list"]:
-            x = self.newvar("x")
+            x = ch.choice(POOL, "fillloop_pool") if (self.P.get("collide") and ch.chance(1, 2, "fillloop_collide")) else self.newvar("x")
             lst = ch.choice(scope["list"], "filllooplist")
             sc3 = dict(sc, str=sc["str"] + [x])
             f[4] = self.nodes(sc3, owner, depth + 1, in_fill=True)
